@@ -508,7 +508,7 @@ fn add_defaults(root: &mut SNode, c: &mut Choices) {
                 let me = named.fullname();
                 for f in fields.iter_mut() {
                     walk(&mut f.node, env, md, c, defined);
-                    if c.chance(1, 3) && refs_all_defined(&f.node, defined) {
+                    if c.chance(1, 3) && refs_all_defined_in(&f.node, defined, env, &mut vec![]) && !string_default_ambiguous(&f.node, env, 0) {
                         let v = vgen::gen_value_cfg(c, &f.node, env, md, &vgen::VgenCfg::for_defaults());
                         if let Some(j) = vgen::default_json(&f.node, &v, env) {
                             f.default = Some(j);
@@ -526,14 +526,54 @@ fn add_defaults(root: &mut SNode, c: &mut Choices) {
 }
 
 /// The library resolves a default against the names parsed *so far*; a default
-/// for a type that references a record still being defined cannot be checked by
-/// it, so defaults are only attached where every reference is already complete.
-fn refs_all_defined(n: &SNode, defined: &[String]) -> bool {
+/// for a type that (transitively) references a record still being defined cannot be
+/// checked by it, so defaults are only attached where every reference reachable from
+/// the field's type is already complete.
+fn refs_all_defined_in(n: &SNode, defined: &[String], env: &Env, seen: &mut Vec<String>) -> bool {
     match &n.ty {
-        SType::Ref(full) => defined.contains(full),
-        SType::Array(i) | SType::Map(i) => refs_all_defined(i, defined),
-        SType::Union(bs) => bs.iter().all(|b| refs_all_defined(b, defined)),
-        SType::Record(_, fields) => fields.iter().all(|f| refs_all_defined(&f.node, defined)),
+        SType::Ref(full) => {
+            if !defined.contains(full) {
+                return false;
+            }
+            if seen.contains(full) {
+                return true;
+            }
+            seen.push(full.clone());
+            match env.get(full) {
+                Some(def) => match &def.ty {
+                    SType::Record(_, fields) => fields.iter().all(|f| refs_all_defined_in(&f.node, defined, env, seen)),
+                    _ => true,
+                },
+                None => false,
+            }
+        }
+        SType::Array(i) | SType::Map(i) => refs_all_defined_in(i, defined, env, seen),
+        SType::Union(bs) => bs.iter().all(|b| refs_all_defined_in(b, defined, env, seen)),
+        SType::Record(_, fields) => fields.iter().all(|f| refs_all_defined_in(&f.node, defined, env, seen)),
         _ => true,
+    }
+}
+
+/// A union whose first branch takes a JSON *string* default (enum, bytes, fixed, ...) and that
+/// also has a uuid-on-string branch: the library resolves a string default against the string
+/// branch first and rejects it as "not a uuid" (known finding, probed in C11). Such defaults are
+/// not generated.
+fn string_default_ambiguous(n: &SNode, env: &Env, depth: usize) -> bool {
+    if depth > 8 {
+        return false;
+    }
+    let n = deref(n, env);
+    match &n.ty {
+        SType::Union(bs) => {
+            let first_stringy = bs.first().map_or(false, |b| {
+                let b = deref(b, env);
+                matches!(b.ty, SType::Enum(..) | SType::Bytes | SType::Fixed(..))
+            });
+            let has_uuid_string = bs.iter().any(|b| matches!((&b.ty, &b.logical), (SType::String, Some(Logical::Uuid))));
+            (first_stringy && has_uuid_string) || bs.first().map_or(false, |b| string_default_ambiguous(b, env, depth + 1))
+        }
+        SType::Array(i) | SType::Map(i) => string_default_ambiguous(i, env, depth + 1),
+        SType::Record(_, fields) => fields.iter().any(|f| string_default_ambiguous(&f.node, env, depth + 1)),
+        _ => false,
     }
 }
